@@ -45,7 +45,7 @@ def duck_calculator(tag):
     qpb = types.SimpleNamespace(p_array=Marker(tag + ".p_array"), t_array=Marker(tag + ".t_array"), volumes=Marker(tag + ".V_tp"))
     calc = types.SimpleNamespace(volume_base=vb, qha_calculator=types.SimpleNamespace(volume_base=qvb, pressure_base=qpb),
                                  modulus_adiabatic={k: Marker("%s.CS%d%d" % ((tag,) + k.voigt)) for k in keys},
-                                 modulus_isothermal={k: Marker("%s.CT%d%d" % ((tag,) + k.voigt)) for k in keys})
+                                 modulus_isothermal={k: Marker("%s.CT%d%d" % ((tag,) + k.voigt)) for k in keys}, modulus_keys=list(keys))
     return calc
 
 
@@ -251,6 +251,7 @@ def run(s):
     s.oblige("C06.qha_layer_forwarding", lambda: qha_layer(qa), [QA + "QHAPressureBaseInterface.p_array", QA + "QHAPressureBaseInterface.volumes", QA + "QHAVolumeBaseInterface.pressures"],
              kind="finite")
     # ---------------- 4. bounded: real calculations
+    real_forwarding(s)
     real_runs(s)
     s.min_obligations = 7
 
@@ -276,7 +277,7 @@ def native_forwarding(cal):
         vb.pressures = Ptv
         calc = types.SimpleNamespace(volume_base=vb, qha_calculator=types.SimpleNamespace(volume_base=types.SimpleNamespace(pressures=Ptv),
                                                                                            pressure_base=types.SimpleNamespace(p_array=p, t_array=numpy.arange(nt) * 100.0, volumes=None)),
-                                     modulus_adiabatic=CS, modulus_isothermal=CT)
+                                     modulus_adiabatic=CS, modulus_isothermal=CT, modulus_keys=list(keys))
         ducks.append((tag, calc, cal.CijPressureBaseInterface(calc), Ptv, p))
     n = 0
     got = {}
@@ -344,6 +345,54 @@ def qha_layer(qa):
             pb.t_array is not c.temperature_array:
         return core.refuted("finite", "QHA interface objects do not forward desired_pressures / v_tp_bohr3 / p_tv_au", witness_id="qha-layer", replay={"reproduced": True})
     return core.proved("finite", "p_array = desired_pressures, volumes = v_tp_bohr3, pressures = p_tv_au, v_array = finer_volumes_bohr3")
+
+
+def real_forwarding(s):
+    """bounded: on REAL calculators built from synthetic data sets (no duck typing) every pressure-base quantity -- the eight named ones, every component by attribute
+    (cIJ, cIJs, cIJt, c_IJ, four-index spelling), by item and through materialised items(), the compliances -- equals qha.v2p of the same-named volume-base quantity with the
+    calculator's own P(T,V) and pressure grid; settings include static_only and a pressure grid that does not start at zero"""
+    import qha.v2p
+    fails, evals = [], 0
+    cases = [dict(seed=s.seed + 31, system="orthorhombic"), dict(seed=s.seed + 32, system="monoclinic", settings={"qha": {"settings": {"static_only": True}}}),
+             dict(seed=s.seed + 33, system="trigonal7", lattice=False, settings={"qha": {"settings": {"P_MIN": 6.0, "NTV": 15}}})]
+    for kw in cases:
+        with calc_env.synthetic_case(**kw) as case:
+            try:
+                calc = case.build()
+                pb, vb = calc.pressure_base, calc.volume_base
+                Ptv = numpy.asarray(calc.qha_calculator.volume_base.pressures)
+                p = numpy.asarray(pb.p_array)
+                names = list(NAMED)
+                for k in calc.modulus_keys:
+                    I, J = k.voigt
+                    names += ["c%d%d" % (I, J), "c%d%ds" % (I, J), "c%d%dt" % (I, J), "c_%d%dt" % (I, J), "c%d%d%d%dt" % k.standard, "c%d%d%d%d" % k.standard]
+                names += ["s%d%d" % k.voigt for k in calc._compliances]
+                tables = {w: dict(getattr(pb, w).items()) for w in ("modulus_adiabatic", "modulus_isothermal")}
+                checks = [(n, lambda n=n: getattr(pb, n), lambda n=n: getattr(vb, n)) for n in names]
+                for w in ("modulus_adiabatic", "modulus_isothermal"):
+                    for k in calc.modulus_keys:
+                        checks.append(("%s[%r]" % (w, k), lambda w=w, k=k: getattr(pb, w)[k], lambda w=w, k=k: getattr(calc, w)[k]))
+                        checks.append(("dict(%s.items())[%r]" % (w, k), lambda w=w, k=k: tables[w][k], lambda w=w, k=k: getattr(calc, w)[k]))
+                for label, got_f, src_f in checks:
+                    evals += 1
+                    with warnings.catch_warnings(), numpy.errstate(all="ignore"):
+                        warnings.simplefilter("ignore")
+                        src = numpy.asarray(src_f(), dtype=float)
+                        want = qha.v2p.v2p(src, Ptv, p)
+                        got = numpy.asarray(got_f(), dtype=float)
+                    ok = numpy.isfinite(want)
+                    if got.shape != want.shape or not numpy.allclose(got[ok], want[ok], rtol=1e-10, atol=1e-13):
+                        fails.append({"witness_id": "real-forwarding:%s" % label.split("[")[0][:20], "input": dict(kw, quantity=label),
+                                      "observed": "pressure_base.%s differs from v2p(volume-base %s) by up to %.3g" % (label, label, float(numpy.nanmax(numpy.abs(got - want))) if got.shape == want.shape else float("nan")),
+                                      "expected": "the same-named (T,V) quantity converted along every isotherm"})
+                        break
+            except Exception as e:
+                fails.append({"witness_id": "real-forwarding-raises", "input": dict(kw), "observed": "raises %r" % (e,), "expected": "pressure-base quantities"})
+        if fails:
+            break
+    s.bounded_standin("C06.forwarding_on_real_calculators", "3 synthetic calculators (orthorhombic; monoclinic with static_only; trigonal7 with P_MIN = 6 GPa): named quantities, every component by "
+                      "attribute in six spellings, by item and through materialised items(), compliances", evals, evals, fails,
+                      ["calculator.Calculator", CA + "__getattr__", CA + "v2p", "calculator.CijPressureBaseModulusInterface.items"])
 
 
 def real_runs(s):
